@@ -90,13 +90,17 @@ type Result struct {
 // ---------------------------------------------------------------------------
 // state
 
+const maxRegions = 48
+const maxSites = 1 << 16
+const maxDecisions = 1 << 18
+
 type task struct {
 	id      int
 	wake    chan struct{}
 	done    bool
 	started bool
 	blocked bool
-	depth   map[string]int // probe regions this task is inside
+	depth   [maxRegions]int // probe regions this task is inside
 }
 
 type sim struct {
@@ -118,19 +122,44 @@ type sim struct {
 	lastKind uint8
 	blockedSpin int
 	lockSpins int
-	fired    map[string]int
+	firedGC, firedClock, firedKnob int
 	mapPerms int
 	mapIters int
-	overlap  map[string]int
-	sites    map[uint32]int
+	overlap  [maxRegions]int
 	clock    int64
 	clockNs  int64
 	doneCh   chan int
-	sink     [][]byte
-	curProbe map[string]int // region -> number of tasks currently inside
+	curProbe [maxRegions]int // region -> number of tasks currently inside
+	decOverflow bool
 }
 
 var s sim
+
+// Scheduler state must not live in Go maps or growing slices: the runtime's map
+// and growslice routines report to the race detector even when called from
+// //go:norace functions, and the tasks touching them are deliberately unordered.
+var (
+	regionNames [maxRegions]string
+	nRegions    int
+	siteHits    [maxSites]int32
+	decBuf      = make([]Decision, 0, maxDecisions)
+	sinkBuf     [256][]byte
+)
+
+//go:norace
+func regionIdx(name string) int {
+	for i := 0; i < nRegions; i++ {
+		if regionNames[i] == name {
+			return i
+		}
+	}
+	if nRegions < maxRegions {
+		regionNames[nRegions] = name
+		nRegions++
+		return nRegions - 1
+	}
+	return maxRegions - 1
+}
 
 var knobs = map[string]*int{}
 var knobDefaults = map[string]int{}
@@ -278,7 +307,9 @@ func (s *sim) step(site uint32, kind uint8) {
 		s.lastKind = kind
 		if next != s.cur {
 			s.preempt++
-			s.sites[site]++
+			if site < maxSites {
+				siteHits[site]++
+			}
 			s.switchTo(next, false)
 		}
 	}
@@ -291,16 +322,14 @@ func (s *sim) fire(f Fault) {
 		runtime.GC()
 		// encourage reuse of just-freed addresses
 		n := s.cfg.GCAlloc
-		if n > 0 {
-			s.sink = s.sink[:0]
-			for i := 0; i < n; i++ {
-				s.sink = append(s.sink, make([]byte, 8+8*(i%6)))
-			}
+		for i := 0; i < n && i < len(sinkBuf); i++ {
+			sinkBuf[i] = make([]byte, 8+8*(i%6))
 		}
+		s.firedGC++
 	case "clock":
 		s.clock += f.Arg
+		s.firedClock++
 	}
-	s.fired[f.Kind]++
 	s.mix(0xfa, s.steps, uint64(len(f.Kind)), uint64(f.Arg))
 }
 
@@ -379,9 +408,18 @@ func (s *sim) choose(kind uint8) int {
 }
 
 //go:norace
+func (s *sim) record(d Decision) {
+	if len(s.dec) < maxDecisions {
+		s.dec = append(s.dec, d) // never grows: capacity is maxDecisions
+	} else {
+		s.decOverflow = true
+	}
+}
+
+//go:norace
 func (s *sim) switchTo(next int, forced bool) {
 	me := s.tasks[s.cur]
-	s.dec = append(s.dec, Decision{s.steps, next})
+	s.record(Decision{s.steps, next})
 	f := uint64(0)
 	if forced {
 		f = 1
@@ -454,7 +492,13 @@ func progress() { s.blockedSpin = 0 }
 
 type onceState struct{ running, done bool }
 
-var onces = map[interface{}]*onceState{}
+type onceSlot struct {
+	key interface{}
+	st  onceState
+}
+
+var onces [256]onceSlot
+var nOnces int
 
 // OnceDo replaces once.Do(f) for a *sync.Once (passed as its Do method value's
 // receiver identity key).
@@ -483,12 +527,17 @@ func OnceDo(key interface{}, do func(func()), f func()) {
 
 //go:norace
 func onceGet(key interface{}) *onceState {
-	st := onces[key]
-	if st == nil {
-		st = &onceState{}
-		onces[key] = st
+	for i := 0; i < nOnces; i++ {
+		if onces[i].key == key {
+			return &onces[i].st
+		}
 	}
-	return st
+	if nOnces < len(onces) {
+		onces[nOnces].key = key
+		nOnces++
+		return &onces[nOnces-1].st
+	}
+	return &onces[len(onces)-1].st
 }
 
 //go:norace
@@ -557,16 +606,14 @@ func Enter(region string) {
 		return
 	}
 	t := s.tasks[s.cur]
-	if t.depth == nil {
-		t.depth = map[string]int{}
-	}
-	if t.depth[region] == 0 {
-		s.curProbe[region]++
-		if s.curProbe[region] >= 2 {
-			s.overlap[region]++
+	r := regionIdx(region)
+	if t.depth[r] == 0 {
+		s.curProbe[r]++
+		if s.curProbe[r] >= 2 {
+			s.overlap[r]++
 		}
 	}
-	t.depth[region]++
+	t.depth[r]++
 }
 
 //go:norace
@@ -575,12 +622,13 @@ func Leave(region string) {
 		return
 	}
 	t := s.tasks[s.cur]
-	if t.depth == nil || t.depth[region] == 0 {
+	r := regionIdx(region)
+	if t.depth[r] == 0 {
 		return
 	}
-	t.depth[region]--
-	if t.depth[region] == 0 {
-		s.curProbe[region]--
+	t.depth[r]--
+	if t.depth[r] == 0 {
+		s.curProbe[r]--
 	}
 }
 
@@ -591,7 +639,7 @@ func Count(name string) {
 	if !s.active {
 		return
 	}
-	s.overlap[name]++
+	s.overlap[regionIdx(name)]++
 }
 
 // ---------------------------------------------------------------------------
@@ -618,10 +666,10 @@ func (s *sim) reset(cfg Config, n int) {
 	s.cfg = cfg
 	s.rng = cfg.Seed
 	s.hash = 14695981039346656037
-	s.fired = map[string]int{}
-	s.overlap = map[string]int{}
-	s.sites = map[uint32]int{}
-	s.curProbe = map[string]int{}
+	s.dec = decBuf[:0]
+	for i := range siteHits {
+		siteHits[i] = 0
+	}
 	s.clock = cfg.ClockBase
 	for k, p := range knobs {
 		*p = knobDefaults[k]
@@ -629,7 +677,7 @@ func (s *sim) reset(cfg Config, n int) {
 	for k, v := range cfg.Knobs {
 		if p, ok := knobs[k]; ok {
 			*p = v
-			s.fired["knob"]++
+			s.firedKnob++
 		}
 	}
 	s.tasks = make([]*task, n)
@@ -639,15 +687,29 @@ func (s *sim) reset(cfg Config, n int) {
 	s.doneCh = make(chan int, n+1)
 }
 
+// result is called by the controller after every task has finished.
+//
 //go:norace
 func (s *sim) result() Result {
-	return Result{
-		Steps: s.steps, Decisions: s.dec, Preemptions: s.preempt,
-		Deadlock: s.deadlock, StepCap: s.stepcap, Hash: s.hash,
-		FaultsFired: s.fired, MapPerms: s.mapPerms, MapIters: s.mapIters,
-		Overlap: s.overlap, LockSpins: s.lockSpins, SitesSwitched: s.sites,
+	r := Result{
+		Steps: s.steps, Decisions: append([]Decision(nil), s.dec...), Preemptions: s.preempt,
+		Deadlock: s.deadlock, StepCap: s.stepcap || s.decOverflow, Hash: s.hash,
+		FaultsFired: map[string]int{"gc": s.firedGC, "clock": s.firedClock, "knob": s.firedKnob},
+		MapPerms: s.mapPerms, MapIters: s.mapIters,
+		Overlap: map[string]int{}, LockSpins: s.lockSpins, SitesSwitched: map[uint32]int{},
 		ClockEnd: s.clock,
 	}
+	for i := 0; i < nRegions; i++ {
+		if s.overlap[i] != 0 {
+			r.Overlap[regionNames[i]] = s.overlap[i]
+		}
+	}
+	for i, h := range siteHits {
+		if h != 0 {
+			r.SitesSwitched[uint32(i)] = int(h)
+		}
+	}
+	return r
 }
 
 //go:norace
@@ -668,7 +730,7 @@ func (s *sim) first() int {
 //go:norace
 func (s *sim) begin(first int) {
 	s.cur = first
-	s.dec = append(s.dec, Decision{0, first})
+	s.record(Decision{0, first})
 	s.mix(0x5c, 0, uint64(first))
 }
 
@@ -678,8 +740,8 @@ func (s *sim) begin(first int) {
 func (s *sim) finish(id int) {
 	t := s.tasks[id]
 	t.done = true
-	for r, d := range t.depth {
-		if d > 0 {
+	for r := 0; r < nRegions; r++ {
+		if t.depth[r] > 0 {
 			s.curProbe[r]--
 		}
 	}
@@ -698,7 +760,7 @@ func (s *sim) finish(id int) {
 	if next < 0 {
 		next = s.pickOther()
 	}
-	s.dec = append(s.dec, Decision{s.steps, next})
+	s.record(Decision{s.steps, next})
 	s.mix(0x5c, s.steps, uint64(id), uint64(next), 2)
 	s.cur = next
 	raceDisable()
